@@ -23,10 +23,10 @@ RULE = (
     "test file / ensure_import / DiscStorage.persist / rename of a -new file / open for writing / write / "
     "SourceFile.new_code, during the tests and during session finish. Then, for *every* recorded call index and "
     "*every* fault kind applicable to that boundary (exception, OSError, non-zero exit, garbage output, "
-    "valid-but-different output, write of a strict prefix followed by an error) one more session is run from a "
+    "valid-but-different output, correct output in a non-utf-8 encoding for files with non-ASCII text, write of a strict prefix followed by an error) one more session is run from a "
     "pristine copy with exactly that fault: exhaustive over the trace. Oracle after each faulted session: every "
     "test file is byte-equal to its previous content or to the content of the un-faulted run, or (formatter "
-    "faults) parses and passes when re-executed with inline-snapshot inactive; it always parses and is never a "
+    "faults) parses, has the syntax tree of the un-faulted result and passes when re-executed with inline-snapshot inactive; it always parses and is never a "
     "strict prefix of the new content; a formatter crash / non-zero exit is reported under Problems; after a "
     "simulated next session start (all -new files pruned) every external(...) reference in every test file "
     "resolves to exactly one stored file. non-trivial = the fault hits a boundary after the first persist or "
@@ -48,7 +48,7 @@ def _case(draw, tier):
     for f in range(nfiles):
         sites = []
         for s in range(draw(st.sampled_from([1, 2, 3]))):
-            kind = draw(st.sampled_from(["create", "fix", "long", "ext", "ext", "hasrepr", "ok"]))
+            kind = draw(st.sampled_from(["create", "fix", "long", "ext", "ext", "hasrepr", "ok", "unicode", "ok-unicode"]))
             sites.append({"kind": kind, "v": draw(st.integers(0, 99))})
         files.append({"sites": sites, "clean": draw(st.booleans())})
     return {"files": files, "fmt": draw(st.sampled_from(FORMATS))}
@@ -71,6 +71,10 @@ def render(case):
                 lines.append(f"    assert outsource('data-{fi}-{si}-{v}') == snapshot()")
             elif s["kind"] == "hasrepr":
                 lines.append(f"    assert [Opaque({v % 5})] == snapshot()")
+            elif s["kind"] == "unicode":
+                lines.append(f"    assert 'café-{v}' == snapshot()  # ünï")
+            elif s["kind"] == "ok-unicode":
+                lines.append(f"    assert 'naïve-{v}' == snapshot('naïve-{v}')")
             else:
                 lines.append(f"    assert {v} == snapshot({v})")
             lines += ["", ""]
@@ -194,6 +198,11 @@ def judge(case, files, good, t, kind, r):
     # formatter faults: whatever was written must still be correct code
     if formatter_fault:
         changed = {n: c for n, c in r.files_after.items() if n.endswith(".py") and c != files[n].encode() and c != good[n]}
+        for n, c in changed.items():
+            # a formatter only changes the layout: the code is the one of the un-faulted run
+            if ast.dump(ast.parse(c.decode("utf-8"))) != ast.dump(ast.parse(good[n].decode("utf-8"))):
+                fail("formatter-fault-changed-code",
+                     f"{n} is not the same code as after the un-faulted run\n--- un-faulted\n{good[n].decode()}\n--- now\n{c.decode()}")
         if changed:
             d = drivers.make_project({**{n: c for n, c in r.all_after.items() if not n.startswith(".vf")}}, pyproject=None)
             try:
